@@ -97,14 +97,44 @@ def check_variant(r: bytes, expect_valid: bool | None, ctx, rng, label: str) -> 
         if expect_valid and not exc and len(obs) != 1:
             ctx.violation("C04:good-readout-not-returned", f"reader returned {len(obs)} readouts for one well-formed readout (split {spec[0]})", dict(case, split=list(spec)))
         for o in obs:
+            if o.get("changed_later"):
+                ctx.violation("C04:readout-changed-after-return", "a returned readout answered differently (bytes/validity/payload) after later read() calls", dict(case, split=list(spec)))
             if o["bytes"] is None:
                 continue
             same = o["bytes"] == r
             judge(o["bytes"], o, ctx, dict(case, via="reader", split=list(spec)), expect_valid if same else None, f"reader[{spec[0]}]")
 
 
+def check_pair(base: bytes, rng, ctx) -> None:
+    """A good readout followed by a same-length damaged copy through ONE reader: each verdict must be about its own bytes."""
+    b = bytearray(base)
+    lf = base.find(b"\n")
+    bang = base.rfind(b"!")
+    if bang - lf < 4:
+        return
+    pos = rng.randrange(lf + 1, bang)
+    b[pos] = b[pos] ^ 0x01 if b[pos] not in (0x0A, 0x0D, 0x21, 0x20) else 0x30
+    damaged = bytes(b)
+    if damaged == base or b"!" in damaged[:bang] or damaged.count(b"\n") != base.count(b"\n"):
+        return
+    for order in ((base, damaged), (damaged, base)):
+        stream = order[0] + order[1]
+        for spec in (("none",), splits.random_spec(rng, len(stream))):
+            obs, exc, _ = p1_mon.run(splits.chunks(stream, spec))
+            case = {"readout": stream, "label": "pair_good_damaged", "expect_valid": None, "split": list(spec)}
+            ctx.count("pairs_through_one_reader")
+            for o, sent in zip(obs, order):
+                if o.get("changed_later"):
+                    ctx.violation("C04:readout-changed-after-return", "a returned readout answered differently after the next readout was read", case)
+                if o["bytes"] is not None:
+                    judge(o["bytes"], o, ctx, dict(case, via="reader-pair"), True if (sent == base and o["bytes"] == base) else None, f"reader-pair[{spec[0]}]")
+                if o["bytes"] != sent:
+                    ctx.violation("C04:readout-bytes-differ-from-sent", "readout returned by the reader is not byte-identical to the one sent", case)
+
+
 def variants_of(base: bytes, rng, ctx, exhaustive_flips: bool) -> None:
     good = p1_gen.correct_checksum(base)
+    check_pair(base, rng, ctx)
     check_variant(base, True, ctx, rng, "correct")
     hx = "%04X" % good
     if hx.lower() != hx:
